@@ -418,10 +418,18 @@ class NetworkService(ModelElement):
         """
         assert(isinstance(ns, NetworkService))
         self_iface = self.add_interface(name=self.name + '-' + ns.name, itype=InterfaceType.ServicePort, **kwargs)
-        other_iface = ns.add_interface(name=ns.name + '-' + self.name, itype=InterfaceType.ServicePort)
-        # link them together with L2Path
-        peer_link = Link(name=self_iface.name + '-link', topo=self.topo, etype=ElementType.NEW,
-                         interfaces=[self_iface, other_iface], ltype=LinkType.L2Path)
+        other_iface = None
+        try:
+            other_iface = ns.add_interface(name=ns.name + '-' + self.name, itype=InterfaceType.ServicePort)
+            # link them together with L2Path
+            peer_link = Link(name=self_iface.name + '-link', topo=self.topo, etype=ElementType.NEW,
+                             interfaces=[self_iface, other_iface], ltype=LinkType.L2Path)
+        except Exception:
+            # do not leave a half-made peering behind
+            for iface in (self_iface, other_iface):
+                if iface is not None:
+                    self.topo.graph_model.remove_cp_and_links(node_id=iface.node_id)
+            raise
         # update interface lists
         self._interfaces.append(self_iface)
         ns._interfaces.append(other_iface)
